@@ -31,7 +31,9 @@ RULE = ('step functions / filters / post-processing / scan bodies: random DSL pr
         '(n, 2, 0), alone or beside a well-sized leaf, n = / < / > prod(nested_lengths), admissible, zero-outer and '
         'empty nestings) against the model with the reshape test on total sizes; negative nested_lengths as a '
         'recorded domain probe; weights of length 0..6; '
-        'DFI: linear equations, two solvers, N = 0..8, ties of round(); a case is non-trivial when at '
+        'DFI: linear equations, two solvers, N = 0..8, ties of round(); DFI applied repeatedly in one process '
+        '(same function 3x, a second function with equal parameters, a jit re-trace, the weights before / after) on '
+        'oscillating states against the defining sum by a plain numpy loop and the model; a case is non-trivial when at '
         'least two steps are taken with a non-identity program; distinct = distinct (op, program, input) hashes')
 
 ERR = {ValueError: 'value-error', TypeError: 'type-error', IndexError: 'index-error',
@@ -759,6 +761,124 @@ def run(ctx: common.Ctx):
       if steady:
         ctx.expect(dinoutil.relerr(out, s) < 1e-10, 'dfi-steady-state',
                    f'DFI changes a state fixed by the forward and the reversed step: {out.tolist()}', inp)
+
+  # ---- DFI applied several times in one process.  The property speaks about EVERY application of the returned function:
+  # no state may be carried between calls (e.g. a memoised weight array normalised in place).  For each parameter set
+  # the function is applied three times (same state, then another state), a second function is built with equal
+  # parameters, the first one is re-traced under jit, and `_dfi_lanczos_weights` is called again afterwards; every
+  # result is compared with the defining sum  h_0 x + sum_n h_n (F^n x + B^n x)  evaluated by a plain Python loop in
+  # numpy (F / B written out as matrices, weights from the documented sinc formula) and with the Lean model.
+  def nearest_even(x):
+    fl = int(np.floor(x))
+    return fl if x - fl < 0.5 else fl + 1 if x - fl > 0.5 else fl + (fl % 2)
+
+  def lanczos_ref(T, c, dt):
+    n_ref = nearest_even(T / (2 * dt))
+    return np.array([sinc_ref(n / (n_ref + 1)) * sinc_ref(n * T / (c * n_ref)) for n in range(1, n_ref + 1)])
+
+  def dfi_defining_sum(solver_name, e, im, filter_mats, T, c, dt, s):
+    d = len(s)
+    eye = np.eye(d)
+
+    def one_step(sign):
+      # forward (sign = +1) / time-reversed (sign = -1) step: both tendencies and the implicit step size negated
+      if solver_name == 'fe':
+        m = eye + sign * dt * (e + im)
+      else:
+        m = (eye + sign * dt * im) @ (eye + sign * dt * e)
+
+      def stepf(u):
+        un = m @ u
+        for a in filter_mats:
+          un = un + a @ (un - u)
+        return un
+      return stepf
+    fwd, bwd = one_step(1.0), one_step(-1.0)
+    w = lanczos_ref(T, c, dt)
+    total = 1.0 + 2.0 * float(sum(w))
+    acc = np.asarray(s, dtype=float) / total
+    xf = xb = np.asarray(s, dtype=float)
+    for wn in w:
+      xf, xb = fwd(xf), bwd(xb)
+      acc = acc + (wn / total) * (xf + xb)
+    return acc
+
+  nrepeat = ctx.n(4, 24)
+  for ci in range(nrepeat):
+    spec = D.random_spec(rng, ['pair', 'dict', 'array3', 'matrix'][ci] if ci < 4 else
+                         str(rng.choice(['pair', 'dict', 'array3', 'matrix', 'tuple', 'list3'])))
+    d = spec.dim
+    solver_name = ['bfe', 'fe'][ci % 2]
+    dt = float(rng.choice([0.125, 0.25, 0.5]))
+    nn = [2.0, 3.0, 4.5, 6.0][ci] if ci < 4 else float(rng.choice([1.0, 2.0, 2.5, 3.0, 4.0, 5.5, 6.0, 8.0]))
+    T = 2 * dt * nn
+    c = float([T, 2 * T, 1.5 * T + 0.25][ci % 3])
+    # an oscillator (rotation in the first two components) plus a weak random coupling: not a steady state
+    omega = float(rng.choice([0.5, 0.75, 1.0, 1.5]))
+    e = rng.integers(-2, 3, (d, d)) / 16.0
+    e[0, 1] += omega
+    e[1, 0] -= omega
+    im = rng.integers(-2, 3, (d, d)) / 16.0
+    nf = ci % 3
+    filter_mats = [rng.integers(-2, 3, (d, d)) / 8.0 for _ in range(nf)]
+    filters = [[('A', np.block([[np.eye(d), np.zeros((d, d))], [-a, np.eye(d) + a]]), np.zeros(2 * d))]
+               for a in filter_mats]
+    s1 = rng.integers(-4, 5, d).astype(float)
+    s1[0] = s1[0] or 1.0
+    s2 = rng.integers(-4, 5, d).astype(float)
+    s2[1] = s2[1] or -2.0
+    base = dict(tree=spec.name, solver=solver_name, explicit=e.tolist(), implicit=im.tolist(),
+                filters=D.enc_progs(filters, **fenc), time_span=T, cutoff_period=c, dt=dt)
+    ctx.dist['dfi-repeat:solver=' + solver_name] += 1
+    ctx.dist[f'dfi-repeat:filters={nf}'] += 1
+    ctx.case(('dfi-repeat', solver_name, e.tobytes(), im.tobytes(), base['filters'], T, c, dt, s1.tobytes(),
+              s2.tobytes()), nontrivial=True, sample=dict(base, states=[s1.tolist(), s2.tolist()]) if ci == 0 else None)
+    ej, ij = jnp.asarray(e), jnp.asarray(im)
+    eq = ti.ImplicitExplicitODE.from_functions(
+        lambda st, spec=spec, ej=ej: spec.unflatten(ej @ spec.flatten(st)),
+        lambda st, spec=spec, ij=ij: spec.unflatten(ij @ spec.flatten(st)),
+        lambda st, eta, spec=spec, ij=ij: spec.unflatten(spec.flatten(st) + eta * (ij @ spec.flatten(st))))
+
+    def fe_solver2(equation, step):
+      def step_fn(u):
+        return jax.tree_util.tree_map(lambda a, b, c2: a + step * (b + c2), u, equation.explicit_terms(u),
+                                      equation.implicit_terms(u))
+      return step_fn
+    solver = ti.backward_forward_euler if solver_name == 'bfe' else fe_solver2
+    jfilters = [filter_of(f, spec) for f in filters]
+    w_ref = lanczos_ref(T, c, dt)
+
+    def weights_probe(when):
+      winp = dict(time_span=T, cutoff_period=c, dt=dt, when=when)
+      with ctx.impl('dfi-exception', winp):
+        w = np.asarray(ti._dfi_lanczos_weights(T, c, dt), dtype=float)
+        ctx.expect(w.shape == w_ref.shape and (w.size == 0 or np.abs(w - w_ref).max() < 1e-12),
+                   'lanczos-oracle-repeated', f'Lanczos weights ({when}) differ from sinc(n/(N+1)) sinc(n T/(c N)): '
+                   f'{w.tolist()} vs {w_ref.tolist()}', winp)
+    weights_probe('before the DFI applications')
+    with ctx.impl('dfi-exception', base):
+      dfi_a = ti.digital_filter_initialization(eq, solver, jfilters, T, c, dt)
+      dfi_b = None
+      plan = [('1st application', 'a', s1), ('2nd application, same function and state', 'a', s1),
+              ('3rd application, same function, another state', 'a', s2),
+              ('second function built with equal parameters', 'b', s1),
+              ('first function under jit (fresh trace)', 'jit', s2),
+              ('second function, 2nd application', 'b', s2)]
+      for label, which, s in plan:
+        inp = dict(base, state=s.tolist(), application=label)
+        if which == 'b' and dfi_b is None:
+          dfi_b = ti.digital_filter_initialization(eq, solver, jfilters, T, c, dt)
+        fn = dfi_a if which == 'a' else dfi_b if which == 'b' else jax.jit(dfi_a)
+        out = np.asarray(flat_of(fn(to_tree(spec, s, dtype=float))), dtype=float)
+        ref = dfi_defining_sum(solver_name, e, im, filter_mats, T, c, dt, s)
+        ctx.dist['dfi-repeat:' + label.split(',')[0]] += 1
+        ctx.expect(dinoutil.relerr(out, ref) < 1e-9, 'dfi-repeated-vs-defining-sum',
+                   f'DFI ({label}) != h_0 x + sum_n h_n (F^n x + B^n x) by a plain loop with the documented Lanczos '
+                   f'weights: {out.tolist()} vs {ref.tolist()}', inp)
+        add(f'comb F dfi {solver_name} {fmat(e)} {fmat(im)} {base["filters"]} {fbits(T)} {fbits(c)} {fbits(dt)} '
+            f'{fvec(s)}', 'digital_filter_initialization[repeated]', inp, out,
+            lambda o: np.asarray(unfvec(o), dtype=float))
+    weights_probe('after the DFI applications')
 
   # time reversal: the reversed equation negates both tendencies and the implicit step size
   for ci in range(ctx.n(6, 40)):
